@@ -11,6 +11,7 @@ C14 clauses: len order getitem slice member exc-parity mutator-crash typeerror
 C15 clauses: stale wrong missing crash        (kept apart so that a recorded finding of one
                                                kind can never cover another)
 """
+import collections
 import copy
 import json
 
@@ -55,10 +56,13 @@ def mk_id(hs, spec):
 
 
 def mk_row(hs, spec):
-    row = {}
+    # a row is any dict: instances of dict subclasses are rows too
+    row = collections.OrderedDict() if spec.get('sub') else {}
     if spec.get('id') is not None:
         row['id'] = mk_id(hs, spec['id'])
     row['n'] = spec.get('n', 0)
+    if 'x' in spec:
+        row['x'] = spec['x']
     if spec.get('mk'):
         row['mk'] = hs.MARKER
     if spec.get('lst'):
@@ -97,6 +101,10 @@ class GridMachine(BaseCheck):
                                    {'f': j + 0.5}, {'f': float(j // 2)}, {'s': ''},
                                    {'uri': 'http://x/%d' % j}, {'bin': 'text/r%d' % j}, {'uri': 'r%d' % j}])
             rows.append({'id': idspec, 'n': j if k.random() < 0.8 else 0, 'mk': k.random() < 0.5})
+            if k.random() < 0.15:
+                rows[-1]['sub'] = True           # an OrderedDict row
+            if k.random() < 0.3:
+                rows[-1]['x'] = j + 0.5          # a float cell (membership is exact equality, as for a list)
         if cls != 'unique-str' and k.random() < 0.5:
             rows[-1] = dict(rows[0])   # equal but not identical
         gver = k.choice([None, None, '2.0', '3.0'])
@@ -628,6 +636,17 @@ class GridMachine(BaseCheck):
             for bad in (5, 'row', None):
                 if bad in g:
                     return 'member', {'why': 'non-row reported present'}
+            # probes that are close to a stored row but not equal to it
+            for row in model[:3]:
+                if isinstance(row.get('x'), float):
+                    near = dict(row)
+                    near['x'] = row['x'] + 1e-7
+                    if (near in g) != (near in model) or g.count(near) != model.count(near):
+                        return 'member', {'why': 'a row differing by 1e-7 in one float cell is reported as present / counted'}
+                if isinstance(row.get('x'), float) and row['x'] == row['x']:
+                    same = dict(row)           # an equal copy IS a member, as for a list
+                    if (same in g) != (same in model):
+                        return 'member', {'why': 'an equal copy of a stored row is not reported as present'}
         except Exception as e:
             return 'observer-crash', {'exc': type(e).__name__, 'msg': str(e)[:200]}
         return None
